@@ -94,13 +94,13 @@ theorem ordPair_fresh (p : Node) {name : Bytes} (h : name.isEmpty = true) : find
 /-- `InsertOrderedChild` with a generated name always satisfies the precondition of the invariant theorems -/
 theorem insert_ok_of_generated (p : Node) (by_ : Nat) (d : Option Nat) (before : Bytes) (nc : Bool) :
     (IdxOp.insert by_ d before [] nc).ok p :=
-  Or.inl (ordPair_fresh p rfl)
+  Or.inr (Or.inl (ordPair_fresh p rfl))
 
 /-- …and so does one with an explicit name that is not yet a child (what `SetDataNode` does) -/
 theorem insert_ok_of_absent (p : Node) (by_ : Nat) (d : Option Nat) (before name : Bytes) (nc : Bool)
     (h : findKid name p.kids = none) : (IdxOp.insert by_ d before name nc).ok p := by
   by_cases he : name.isEmpty = true
-  · exact Or.inl (ordPair_fresh p he)
-  · left; unfold ordPair; rw [if_neg he]; exact h
+  · exact Or.inr (Or.inl (ordPair_fresh p he))
+  · right; left; unfold ordPair; rw [if_neg he]; exact h
 
 end Muscle.Reflector
